@@ -163,22 +163,27 @@ FAMILIES = {
 FAMILY_ORDER = ["ip", "host", "mk", "mixed"]
 
 BOUNDS = {
-    "quick": {"families": {"ip": {"tokens": 7, "line_tokens": 2, "depth": 3},
-                           "host": {"tokens": 7, "line_tokens": 2, "depth": 3},
-                           "mk": {"tokens": 5, "line_tokens": 2, "depth": 3},
-                           "mixed": {"tokens": 13, "line_tokens": 2, "depth": 2}},
-              "spec_lines": "1 line of <= line_tokens tokens, or 2 lines of 1 token each"},
-    "thorough": {"families": {"ip": {"tokens": 7, "line_tokens": 3, "depth": 4},
-                              "host": {"tokens": 7, "line_tokens": 3, "depth": 4},
-                              "mk": {"tokens": 5, "line_tokens": 3, "depth": 4},
-                              "mixed": {"tokens": 13, "line_tokens": 2, "depth": 3}},
-                 "spec_lines": "1 line of <= line_tokens tokens, or 2 lines of 1 token each"},
+    "quick": {"families": {"ip": {"tokens": "7 + 2 glued", "line_tokens": 2, "depth": 3},
+                           "host": {"tokens": "7 + case variant + 1 glued", "line_tokens": 2, "depth": 3},
+                           "mk": {"tokens": "5 + 1 glued", "line_tokens": 2, "depth": 3},
+                           "mixed": {"tokens": "13 + 1 glued", "line_tokens": 2, "depth": 2}},
+              "spec_lines": "1 line of <= line_tokens tokens, or 2 lines of 1 token each",
+              "counter_family": "6 long runs (300 IPv4 / 120 host names, ascending / descending / revisiting)"},
+    "thorough": {"families": {"ip": {"tokens": "7 + 2 glued", "line_tokens": 3, "depth": 4},
+                              "host": {"tokens": "7 + case variant + 1 glued", "line_tokens": 3, "depth": 4},
+                              "mk": {"tokens": "5 + 1 glued", "line_tokens": 3, "depth": 4},
+                              "mixed": {"tokens": "13 + 1 glued", "line_tokens": 2, "depth": 3}},
+                 "spec_lines": "1 line of <= line_tokens tokens (3-token lines over the base tokens only, without the "
+                               "glued / case-variant additions), or 2 lines of 1 token each",
+                 "counter_family": "6 long runs (300 IPv4 / 120 host names, ascending / descending / revisiting)"},
 }
 CAP_S = {"quick": 120, "thorough": 2400}
 
 RULE = ("explicit-state BFS over histories of clean_content([line..]) events on one Cleaner; per family "
         "(IPv4-only, host-only, MAC+keyword, mixed-kind representatives) the event menu is every spec of one "
-        "line of <= k tokens (all ordered token tuples, repeats included) or two 1-token lines; histories up "
+        "line of <= k tokens (all ordered token tuples, repeats included; a token is an original alone or an original "
+        "with a word character glued to its right, observed as <substitute><glue>; 3-token lines use the base tokens "
+        "only) or two 1-token lines; histories up "
         "to the family's depth; the mixed family skips histories whose tokens all belong to one single-kind "
         "family (those are covered deeper there), so no history is executed twice. States = (sorted "
         "mapping() of every obfuscator, oracle memory) - public observations only; depth-0/1 states are de-duplicated globally (one work unit per "
@@ -200,7 +205,8 @@ TECHNIQUE = ("explicit-state BFS over call histories of one live Cleaner (transi
              "states = public mapping() of every obfuscator + oracle memory, held as whole-object snapshots), history-wide mapping invariants checked in every state")
 LEVEL_TEXT = ("Every history of clean_content calls up to depth 3 (quick) / 4 (thorough) over a token alphabet with one "
               "symbol per collision class visible in the code (prefix-related IPs, originals equal to issuable "
-              "substitutes, suffix-related host names, short/FQDN system name, MAC case variants, the guarded "
+              "substitutes, suffix-related host names, short/FQDN system name, MAC and host-name case variants, originals with a word "
+              "character glued to their right, the guarded "
               "already-obfuscated MAC) is executed against the real Cleaner; consistency, injectivity and the "
               "mapping()/facts/CSV reports are checked after every event against what was positionally observed. "
               "Model checking is the right level because the property quantifies over histories through a stateful "
